@@ -23,8 +23,8 @@ def nontrivial(t):
     return a["op"] == "end_block" or a["out"] in ("ok", "fail_exec") or a["stale"]
 
 
-def run_ledger(prop, profiles, tier, seed, rule_extra=""):
-    v = vf.Verdict(prop, tier, seed)
+def run_ledger(prop, profiles, tier, seed, rule_extra="", verdict=None):
+    v = verdict or vf.Verdict(prop, tier, seed)
     vf.sany("Ledger.tla")
     states = transitions = 0
     cfgs = []
@@ -88,8 +88,11 @@ def run_ledger(prop, profiles, tier, seed, rule_extra=""):
         "exhaustive": False,
         "tlc_configs": cfgs,
     }
-    return v.finish(cov, assumptions=[
+    assumptions = [
         "cnidarium StateDelta semantics (nested delta applied only on success)",
         "amounts of asset `big` are scaled by floor(u128::MAX / 3) so that model overflow == u128 overflow",
         "the genesis used by the harness (no fees except fee_change, nria the only fee asset, no bridge accounts)",
-    ])
+    ]
+    if verdict is not None:
+        return cov, assumptions
+    return v.finish(cov, assumptions=assumptions)
